@@ -58,6 +58,8 @@ def family(tier):
         ("un", "exp", ("dot", v3, K.W3)) if tier == "thorough" else ("un", "exp", ("vsum", v3)),
         ("norm", v3, 2), ("norm", v3, 1),
         ("bin", "*", ("param", "p"), ("dot", v3, v3)),
+        ("bin", "*", ("bin", "*", ("param", "p"), K.X), K.Y), ("bin", "**", K.X, ("param", "p")), ("bin", "*", ("un", "exp", ("param", "p")), ("bin", "*", K.X, K.X)),
+        ("bin", "+", ("bin", "*", ("param", "p"), ("bin", "**", K.X, ("const", 2))), ("bin", "*", ("param", "q"), ("bin", "*", K.X, K.Y))),
         ("bin", "/", ("num", 1.0), ("vsum", v3)),
     ]
     fam = [r for r in K.scalar_family(tier) if len(free_names(r)["vars"]) <= (4 if tier == "quick" else 5)]
@@ -112,6 +114,27 @@ def observe(recipe, order, val):
         names["compile_hessian"] = f.__name__
         return np.asarray(f(x))
     rec("compile_hessian", comp)
+    if b.params and all(n + "'" in val for n in b.params):
+        # Hessian expressions / callables BUILT at the old parameter values, used after the update
+        try:
+            Hs = A.compute_hessian(e, V)
+        except Exception as ex:  # noqa: BLE001
+            Hs = ex
+        try:
+            f = A.compile_hessian(e, V)
+            names["upd:compile_hessian"] = f.__name__
+        except Exception as ex:  # noqa: BLE001
+            f = ex
+        for n, p_ in b.params.items():
+            p_.set(val[n + "'"])
+        if isinstance(Hs, Exception):
+            out["upd:compute_hessian"] = Hs
+        else:
+            rec("upd:compute_hessian", lambda: np.array([[h.evaluate(point) for h in row] for row in Hs], dtype=object))
+        if isinstance(f, Exception):
+            out["upd:compile_hessian"] = f
+        else:
+            rec("upd:compile_hessian", lambda: np.asarray(f(x)))
     out["__names__"] = names
     return out
 
@@ -125,10 +148,11 @@ def check_recipe(recipe, planted=False):
     orders = K.variable_orders(used, tier=_TIER)
     if len(used) > 3:
         orders = orders[:2] + orders[-1:]
-    allv = used + ["u0", "u1"] + names["syms"] + names["params"]
+    allv = used + ["u0", "u1"] + names["syms"] + names["params"] + [n + "'" for n in names["params"]]
     val = K.sym_val(allv)
-    oracle = {}
-    dom = []
+    val1 = {**val, **{n: val[n + "'"] for n in names["params"]}}
+    oracle, oracle_upd = {}, {}
+    dom, dom_upd = [], []
     for i, wi in enumerate(used):
         for wj in used[i:]:
             ref = Ref(K.dual_val(val, wi, wj), diff=2)
@@ -136,12 +160,21 @@ def check_recipe(recipe, planted=False):
             oracle[(wi, wj)] = oracle[(wj, wi)] = o + (1.0 if planted else 0.0)
             if not dom:
                 dom = ref.dom
+            if names["params"]:
+                ref = Ref(K.dual_val(val1, wi, wj), diff=2)
+                o = K.second(ref.S(recipe))
+                oracle_upd[(wi, wj)] = oracle_upd[(wj, wi)] = o + (1.0 if planted else 0.0)
+                if not dom_upd:
+                    dom_upd = ref.dom
+    dom_upd = dom + dom_upd
+    oracle_plain, dom_plain = oracle, dom
     shp = K.shape(recipe, 3)
     for order in orders:
         for dec, labels, pc, out in K.explore(lambda: observe(recipe, order, val), max_paths=200):
             nm = out.pop("__names__")
             PATHS_SEEN.update(nm.values())
             for name, got in out.items():
+                oracle, dom = (oracle_upd, dom_upd) if name.startswith("upd:") else (oracle_plain, dom_plain)
                 fp = nm.get(name, "")
                 what = f"{name} {show(recipe)[:100]} V={order}" + (f" via {fp}" if fp else "")
                 payload = dict(kind="value", obs=name, recipe=K.enc(recipe), order=order)
@@ -196,7 +229,8 @@ def replay(payload):
     order = payload["order"]
     name = payload["obs"]
     names = free_names(recipe)
-    allv = list(dict.fromkeys(names["vars"] + order + names["syms"] + names["params"]))
+    allv = list(dict.fromkeys(names["vars"] + order + names["syms"] + names["params"] + [n + "'" for n in names["params"]]))
+    upd = name.startswith("upd:")
     if payload["kind"] == "raises":
         out = observe(recipe, order, {n: 0.7 for n in allv})
         if isinstance(out[name], Exception):
@@ -210,11 +244,14 @@ def replay(payload):
             if isinstance(got, Exception):
                 continue
             H = np.asarray(got, dtype=float)
+            rpt = {**pt, **{n: pt[n + "'"] for n in names["params"]}} if upd else pt
             for i, wi in enumerate(order):
                 for j, wj in enumerate(order):
                     if wi in names["vars"] and wj in names["vars"]:
                         with np.errstate(all="ignore"):
-                            r, ok = K.concrete_ref(recipe, pt, diff=2, wrt=wi, wrt2=wj)
+                            r, ok = K.concrete_ref(recipe, rpt, diff=2, wrt=wi, wrt2=wj)
+                            if ok and upd:
+                                ok = K.concrete_ref(recipe, pt, diff=2, wrt=wi, wrt2=wj)[1]
                         if not ok:
                             raise ValueError("irregular")
                         ref = float(K.second(r))
